@@ -561,13 +561,26 @@ impl Engine for CollEngine {
     fn describe(&self, bytes: &[u8]) -> Value {
         describe_coll(bytes)
     }
+    fn sweep(&self, tier: Tier, idx: u32, nworkers: u32) -> Option<SweepOut> {
+        if self.prop == "C14" {
+            Some(str_eng::decoder_sweep(tier, idx, nworkers))
+        } else {
+            None
+        }
+    }
+    fn replay_sweep(&self, item: &Value) -> Vec<String> {
+        str_eng::replay_decoder_item(item)
+    }
+    fn fuzz(&self) -> Option<FuzzSpec> {
+        Some(FuzzSpec { target: "fz_coll", max_len: 5 * 60, target_prefix: vec![], engine_prefix: vec![] })
+    }
     fn stat_names(&self) -> Vec<&'static str> {
         VST_NAMES.to_vec()
     }
     fn cases(&self, tier: Tier) -> u32 {
         match tier {
-            Tier::Quick => 2500,
-            Tier::Thorough => 40000,
+            Tier::Quick => 10000,
+            Tier::Thorough => 120000,
         }
     }
     fn rule(&self) -> String {
